@@ -485,6 +485,24 @@ let () =
                off := !off + l) sets;
            Printf.printf "reencode sets=%d identical=%b\n" (List.length sets) (!ok && !off = len)
          | None -> Printf.printf "reencode failed\n")
+      | L [A "buffers"; ln; L ops] ->
+        let bop_of = function
+          | L [A "create"; i; c] -> BCreate (n_of_int (ai i), bytes_of c)
+          | L [A "scan"; i; c] -> BScan (n_of_int (ai i), bytes_of c)
+          | L [A "switch"; i] -> BSwitch (n_of_int (ai i))
+          | L [A "push"; i] -> BPush (n_of_int (ai i))
+          | L [A "pop"] -> BPop
+          | L [A "flush"; i] -> BFlush (n_of_int (ai i))
+          | L [A "delete"; i] -> BDelete (n_of_int (ai i))
+          | L [A "lex"; k] -> BLex (nat_of_int (ai k))
+          | _ -> failwith "bop" in
+        let evs = brun prog (ab ln) binit (List.map bop_of ops) in
+        let fnv bs = List.fold_left (fun h b -> ((h lxor (int_of_n b)) * 16777619) land 0xFFFFFFFF) 2166136261 bs in
+        List.iter (function
+            | BTok (b, r, text, line, bol) -> Printf.printf "T %d %d %d %d %d %d\n" (int_of_n b) (int_of_n r) (List.length text) (fnv text) (int_of_z line) (if bol then 1 else 0)
+            | BEof b -> Printf.printf "Z %d\n" (int_of_n b)
+            | BNoBuffer -> Printf.printf "NOBUF\n") evs;
+        Printf.printf "END\n"
       | L [A "kinds"] ->
         Printf.printf "kinds %s\n" (String.concat " " (List.map (fun r ->
             match rule_kind r with
